@@ -410,6 +410,31 @@ def reuse_oracle(ctx, see, quick):
             skipped += 1
             continue
         done += 1
+        # ---- risk calls on the curve: the bump-and-rebuild inside credit_dv01 must work on its own copy. Afterwards the
+        # curve's own quote contracts still carry their quotes and are still worth zero on it, and asking again gives the
+        # same number (seed C09-10: a shallow copy left +1bp per call on the caller's contracts)
+        try:
+            dv_a = float(used_trade.credit_dv01(second, curve_fresh, rec))
+            dv_b = float(used_trade.credit_dv01(second, curve_fresh, rec))
+            dv_f = float(mk_trade().credit_dv01(second, CDSCurve(second, mk_contracts(), lib2, rec), rec))
+        except Exception:  # noqa: BLE001  (bumped rebuild may fail where the base build is marginal: main component's subject)
+            dv_a = dv_b = dv_f = None
+        if dv_a is not None:
+            cp = [float(c.running_cpn) for c in curve_fresh.cds_contracts]
+            kn = [float(x) for x in curve_fresh._values]
+            kw = [float(x) for x in CDSCurve(second, mk_contracts(), lib2, rec)._values]
+            see('risk.credit_dv01-repeat', abs(dv_a - dv_b))
+            if cp != [float(q) for q in quotes] or not all(same(a, b) for a, b in zip(kn, kw)):
+                ps = [float(c.par_spread(second, curve_fresh, rec)) for c in curve_fresh.cds_contracts]
+                ctx.violation('CDS.credit_dv01 changed the issuer curve it was given: after the call the curve\'s own quote contracts '
+                              'no longer carry their quotes / the knots moved, so the curve no longer values its inputs at zero',
+                              dict(cs, coupons_of_curve_contracts_after=cp, par_spreads_on_curve=ps, knots_after=kn, knots_fresh=kw,
+                                   credit_dv01=[dv_a, dv_b]), clause='risk-call-leaves-curve')
+            elif not (same(dv_a, dv_b) and same(dv_a, dv_f)):
+                ctx.violation('CDS.credit_dv01 is not repeatable: two calls with the same arguments, or the same call on fresh '
+                              'identical objects, give different numbers',
+                              dict(cs, credit_dv01_first=dv_a, credit_dv01_second=dv_b, credit_dv01_fresh_objects=dv_f),
+                              clause='risk-call-leaves-curve')
         # ---- the same contract objects bootstrapped again on the second date
         try:
             curve_used = CDSCurve(second, used_contracts, lib2, rec)
